@@ -303,6 +303,9 @@ def scn_metrics():
     ops["interp_like"] = lambda n: n["g"].interp_like(n["cl"], n["c"], boundary="extend")
     ops["set_same"] = lambda n: n["g"].set_metrics("X", n["mlist"], overwrite=True)
     ops["set_refused"] = lambda n: n["g"].set_metrics(("X",), "dx_c2")
+    # refused because a later name of the list is unknown: the names listed before it are not registered either
+    ns["mbad"] = ["dx_c2", "no_such_metric"]
+    ops["set_refused_unknown"] = lambda n: n["g"].set_metrics("X", n["mbad"], overwrite=True)
     ops["construct"] = lambda n: _construct_m(n)
     ops["cumsum_mw"] = lambda n: n["g"].cumsum(n["c"], "X", to="left", metric_weighted=n["mw"], boundary="fill")
     ops["bad_metric_axis"] = lambda n: n["g"].integrate(n["c"], "Z")
@@ -406,6 +409,9 @@ def scn_transform():
     ops["lin_zero_end"] = lambda n: n["g"].transform(n["da"], "Z", n["lev"], target_data=n["tdz"])
     ops["cons_outer"] = lambda n: n["g"].transform(n["da"], "Z", n["bins"], target_data=n["tdo"], method="conservative")
     ops["cons_center"] = lambda n: n["g"].transform(n["da"], "Z", n["bins"], target_data=n["tdn"], method="conservative")
+    # another field with the same name, dimensions and shape as tdn (a second time slice of the same tracer)
+    ns["tdn2"] = xr.DataArray(np.array([[0.5, 1.0, 4.0], [5.5, 2.0, 0.5]]), dims=["x", "zc"], name="dens")
+    ops["cons_center_2"] = lambda n: n["g"].transform(n["da"], "Z", n["bins"], target_data=n["tdn2"], method="conservative")
     ops["cons_unnamed"] = lambda n: n["g"].transform(n["da"], "Z", n["bins"], target_data=n["td"], method="conservative")
     ops["cons_bad"] = lambda n: n["g"].transform(n["da"], "Z", n["badbins"], target_data=n["tdo"], method="conservative")
     ops["interp_z"] = lambda n: n["g"].interp(n["da"], "Z", boundary="extend")
